@@ -15,6 +15,7 @@ import (
 func init() {
 	register(&Scenario{
 		Prop:      "C27",
+		Preempt:   true,
 		Run:       runC27,
 		NeedsRace: true,
 		Real: []string{
